@@ -77,9 +77,14 @@ enum PathK {
     Proxy,
     ClientCall,
     ClientNotify,
+    /// a response that is itself an error (handler-returned error with a long message)
+    InlineError,
+    OffReaderError,
+    /// the upstream answers with an application-error response
+    ProxyError,
 }
 
-const PATHS: [PathK; 10] = [
+const PATHS: [PathK; 13] = [
     PathK::Inline,
     PathK::OffReader,
     PathK::CtxNotify,
@@ -90,6 +95,9 @@ const PATHS: [PathK; 10] = [
     PathK::Proxy,
     PathK::ClientCall,
     PathK::ClientNotify,
+    PathK::InlineError,
+    PathK::OffReaderError,
+    PathK::ProxyError,
 ];
 
 impl PathK {
@@ -105,6 +113,9 @@ impl PathK {
             PathK::Proxy => "proxy-response",
             PathK::ClientCall => "client-call",
             PathK::ClientNotify => "client-notify",
+            PathK::InlineError => "inline-error-response",
+            PathK::OffReaderError => "offreader-error-response",
+            PathK::ProxyError => "proxy-error-response",
         }
     }
     fn from_name(s: &str) -> Option<PathK> {
@@ -399,6 +410,29 @@ fn next_slot() -> u16 {
     (SLOT.fetch_add(1, Ordering::Relaxed) % 60000 + 1) as u16
 }
 
+/// Clauses B and C for a response that is itself an error reply: delivered means same id, error
+/// code, query and message, and the size the harness planned (header fields such as the body format
+/// code of an error reply are C03's business); otherwise as for any response.
+fn check_error_response(o: &mut CaseOut, c: &Case, got: &Rx, expected: &Frame, id: u64) {
+    let want_len = expected.to_bytes().len();
+    if !fits(c.limit, want_len) {
+        return check_response(o, c, got, expected, id);
+    }
+    match got {
+        Rx::Bin(b) => match parse_whole(b) {
+            Some(f) if f.h.id == id && f.h.ec == expected.h.ec && f.query == expected.query && f.body == expected.body => {
+                if b.len() != want_len {
+                    o.mach(format!("size model of an error reply wrong: planned {want_len}, got {}", b.len()));
+                }
+                o.class = Some(Class::Delivered);
+            }
+            Some(f) if f.h.ec == INTERNAL_ERROR => o.bad(c, "small-refused", format!("an error response within the limit was replaced by InternalError ({:?})", String::from_utf8_lossy(&f.body[..f.body.len().min(80)]))),
+            _ => o.bad(c, "small-altered", format!("an error response within the limit arrived altered: {}", got.describe())),
+        },
+        other => o.bad(c, "small-refused", format!("an error response within the limit was not delivered: {}", other.describe())),
+    }
+}
+
 /// Clauses B and C for a response-shaped message.
 fn check_response(o: &mut CaseOut, c: &Case, got: &Rx, expected: &Frame, id: u64) {
     let want = expected.to_bytes();
@@ -545,6 +579,14 @@ async fn server_case(c: &Case, q: usize, b: usize) -> CaseOut {
             router = if c.path == PathK::Inline { router.with_json(&query, h) } else { router.with_json_blocking(&query, h) };
             expected = Frame::new(Hdr { body_format: frames::FMT_JSON, ..resp_hdr }, query.as_bytes(), &body);
         }
+        PathK::InlineError | PathK::OffReaderError => {
+            let msg = text("e", b);
+            let m2 = msg.clone();
+            let h = move |_v: Value| -> Result<Value, (repe::ErrorCode, String)> { Err((repe::ErrorCode::InvalidBody, m2.clone())) };
+            router = if c.path == PathK::InlineError { router.with_json(&query, h) } else { router.with_json_blocking(&query, h) };
+            // only id, ec, query and body of this frame are compared (see check_error_response)
+            expected = Frame::new(Hdr { body_format: frames::FMT_UTF8, ec: 4, ..resp_hdr }, query.as_bytes(), msg.as_bytes());
+        }
         PathK::CtxNotify => {
             let body = raw_body(b);
             let (m, bd) = (query.clone(), body.clone());
@@ -617,6 +659,15 @@ async fn server_case(c: &Case, q: usize, b: usize) -> CaseOut {
             }
             let got = rx(&mut conn.client, &mut o).await;
             check_response(&mut o, c, &got, &expected, REQ_ID);
+        }
+        PathK::InlineError | PathK::OffReaderError => {
+            let trig = Frame::request(REQ_ID, &query, b"null", frames::FMT_JSON, false);
+            if let Err(e) = conn.send_frame(&trig).await {
+                o.mach(format!("cannot send trigger: {e}"));
+                return o;
+            }
+            let got = rx(&mut conn.client, &mut o).await;
+            check_error_response(&mut o, c, &got, &expected, REQ_ID);
         }
         PathK::CtxNotify => {
             let trig = Frame::request(REQ_ID, "/push", b"null", frames::FMT_JSON, false);
@@ -758,7 +809,14 @@ async fn proxy_case(c: &Case, q: usize, b: usize) -> CaseOut {
     let query = mk_query(q);
     let body = raw_body(b);
     let resp = Frame::new(
-        Hdr { version: 1, id: REQ_ID, query_format: 1, body_format: frames::FMT_RAW, ..Default::default() },
+        Hdr {
+            version: 1,
+            id: REQ_ID,
+            query_format: 1,
+            body_format: frames::FMT_RAW,
+            ec: if c.path == PathK::ProxyError { 4096 } else { 0 },
+            ..Default::default()
+        },
         query.as_bytes(),
         &body,
     );
@@ -929,7 +987,7 @@ fn run_case(c: &Case) -> CaseOut {
     let r = std::panic::catch_unwind(std::panic::AssertUnwindSafe(|| {
         memstream::run_paused(async {
             match c.path {
-                PathK::Proxy => proxy_case(c, q, b).await,
+                PathK::Proxy | PathK::ProxyError => proxy_case(c, q, b).await,
                 PathK::ClientCall | PathK::ClientNotify => client_case(c, q, b).await,
                 _ => server_case(c, q, b).await,
             }
